@@ -150,8 +150,15 @@ func TestVerifRelayReplay(t *testing.T) {
 	data := &vData{sess: map[int]*vSessData{}, seed: r.plan.Seed}
 	r.onRelayMsg = func(s int, msg []byte) {
 		sd := data.get(s)
+		// decided and recorded under r.mu, like relay.close: a relay that has closed takes nothing any more
+		// (a message its read loop had already in hand is not a receipt after the close)
+		r.mu.Lock()
+		defer r.mu.Unlock()
+		if rc := r.relays[s]; rc != nil && rc.relayClosed {
+			return
+		}
 		ok := sd.upRx.check(msg)
-		r.log(vEvent{"ev": "relay.recv", "s": s, "n": len(msg), "total": int(sd.upRx.pos), "ok": ok})
+		r.logLocked(vEvent{"ev": "relay.recv", "s": s, "n": len(msg), "total": int(sd.upRx.pos), "ok": ok})
 	}
 	r.onOver = func(in, out int) { r.log(vEvent{"ev": "event.over", "in": in, "out": out}) }
 	r.hGate = true
